@@ -9,6 +9,7 @@ import (
 	"fmt"
 	"go/token"
 	"math/big"
+	"regexp"
 	"strings"
 
 	"golang.org/x/tools/go/ssa"
@@ -41,6 +42,9 @@ func eventsOf(ev *Evaluator, sub string) []Event {
 	}
 	return out
 }
+
+// rePrimRow: global:table[<cfg>][<j>][k] - the k-th point index of the j-th primitive of a row
+var rePrimRow = regexp.MustCompile(`^((?:global:)?\w+)\[.*\]\[(\d+)\]$`)
 
 // constOffset: t == stride*μ + k  ->  (k, true) for a single recurrence atom μ.
 func strideOffset(t *Term) (stride, off int, mu string, ok bool) {
@@ -164,17 +168,44 @@ func analyseKernel(ctx *Ctx, fn *ssa.Function, nverts int, interp string) (*kern
 	}
 	for k, e := range prim.Elems {
 		s, _ := e.(*Sym)
-		if s == nil || s.Idx == nil || s.Idx.Op != "sel" {
+		if s == nil || s.Idx == nil {
 			return nil, fmt.Errorf("vertex %d of the emitted primitive is not points[table[...]]: %s", k, valKey(e))
 		}
-		stride, off, _, ok := strideOffset(s.Idx.Args[0])
-		if !ok {
-			return nil, fmt.Errorf("vertex %d: table index %s is not stride*i+k", k, s.Idx.Args[0].Key())
+		var stride, off int
+		table := ""
+		switch {
+		case s.Idx.Op == "sel":
+			// row[stride*i + k], or row[j + k] with j stepping by `stride`
+			st, o, mu, ok := strideOffset(s.Idx.Args[0])
+			if !ok {
+				return nil, fmt.Errorf("vertex %d: table index %s is not stride*i+k", k, s.Idx.Args[0].Key())
+			}
+			if st == 1 && mu != "" {
+				if rc, has := recs[mu]; has {
+					for step := 2; step <= 4; step++ {
+						if rc.Step.Key() == Add(K(int64(step)), A(mu)).Key() && rc.Init.IsZero() {
+							st = step
+						}
+					}
+				}
+			}
+			stride, off, table = st, o, s.Idx.S
+		case s.Idx.Op == "a":
+			// a row of primitives, each a small array of point indices: row[j][k]
+			m := rePrimRow.FindStringSubmatch(s.Idx.S)
+			if m == nil {
+				return nil, fmt.Errorf("vertex %d of the emitted primitive is not points[table[...]]: %s", k, valKey(e))
+			}
+			fmt.Sscan(m[2], &off)
+			table = m[1]
+			stride = nverts // one inner array per primitive; its length is checked when the table is read
+		default:
+			return nil, fmt.Errorf("vertex %d of the emitted primitive is not points[table[...]]: %s", k, valKey(e))
 		}
 		if k == 0 {
 			kf.stride = stride
-			kf.tableName = s.Idx.S
-		} else if stride != kf.stride || s.Idx.S != kf.tableName {
+			kf.tableName = table
+		} else if stride != kf.stride || table != kf.tableName {
 			return nil, fmt.Errorf("vertices use different strides/tables")
 		}
 		kf.emit = append(kf.emit, off)
